@@ -28,6 +28,8 @@ pub struct Layout {
     pub max_payload: usize,
     /// some name the library understands contains a compression pointer
     pub has_pointer: bool,
+    /// longest pointer chain followed by any one name
+    pub max_hops: u8,
     /// (start, end) of every record, per section
     pub recs: [Vec<(usize, usize)>; 4],
     /// (offset, code, len) of every EDNS option
@@ -70,7 +72,7 @@ fn bad_label_char(c: u8) -> bool {
 /// Decodes a possibly compressed name under the parser's policy: labels <= 63, total <= 255,
 /// <= 16 strictly backward pointers, never to a root label, no control characters / dots /
 /// backslashes. Returns (name, offset after the name in the record, used_pointer).
-pub fn decode_name(p: &[u8], start: usize) -> Result<(Name, usize, bool), DecodeErr> {
+pub fn decode_name(p: &[u8], start: usize) -> Result<(Name, usize, u8), DecodeErr> {
     let len = p.len();
     if start >= len {
         return err("name starts outside the packet");
@@ -137,7 +139,7 @@ pub fn decode_name(p: &[u8], start: usize) -> Result<(Name, usize, bool), Decode
         }
         labels.push(lab.to_vec());
     }
-    Ok((Name(labels), after.unwrap_or(off), hops > 0))
+    Ok((Name(labels), after.unwrap_or(off), hops as u8))
 }
 
 /// Pointer-free name with arbitrary label bytes (DNAME target).
@@ -179,7 +181,7 @@ pub fn decode_plain_name(p: &[u8], start: usize) -> Result<(Name, usize), Decode
 
 /// Decodes one full (non-question) record at `start`. Returns the record, the end offset and
 /// whether a pointer was used in a name the library understands.
-pub fn decode_record(p: &[u8], start: usize) -> Result<(Rec, usize, bool), DecodeErr> {
+pub fn decode_record(p: &[u8], start: usize) -> Result<(Rec, usize, u8), DecodeErr> {
     let (name, ne, mut ptr) = decode_name(p, start)?;
     if ne + 10 > p.len() {
         return err("truncated record header");
@@ -215,7 +217,7 @@ pub fn decode_record(p: &[u8], start: usize) -> Result<(Rec, usize, bool), Decod
                 return err("empty name rdata");
             }
             let (n, e, pp) = decode_name(p, rd)?;
-            ptr |= pp;
+            ptr = ptr.max(pp);
             if e != end {
                 return err("name does not fill rdata");
             }
@@ -227,7 +229,7 @@ pub fn decode_record(p: &[u8], start: usize) -> Result<(Rec, usize, bool), Decod
             }
             let pref = be16(p, rd)?;
             let (n, e, pp) = decode_name(p, rd + 2)?;
-            ptr |= pp;
+            ptr = ptr.max(pp);
             if e != end {
                 return err("MX name does not fill rdata");
             }
@@ -239,7 +241,7 @@ pub fn decode_record(p: &[u8], start: usize) -> Result<(Rec, usize, bool), Decod
             }
             let (n1, e1, p1) = decode_name(p, rd)?;
             let (n2, e2, p2) = decode_name(p, e1)?;
-            ptr |= p1 | p2;
+            ptr = ptr.max(p1).max(p2);
             if e2 + 20 != end {
                 return err("SOA names do not fill rdata");
             }
@@ -299,7 +301,8 @@ pub fn decode(p: &[u8]) -> Result<Decoded, DecodeErr> {
     } else {
         lay.off[0] = Some(off);
         let (name, ne, ptr) = decode_name(p, off)?;
-        lay.has_pointer |= ptr;
+        lay.has_pointer |= ptr > 0;
+        lay.max_hops = lay.max_hops.max(ptr);
         // the parser needs at least one byte after the name before it even looks at the type
         if ne + 4 > p.len() {
             return err("truncated question");
@@ -334,7 +337,8 @@ pub fn decode(p: &[u8]) -> Result<Decoded, DecodeErr> {
                 return err("announced record missing");
             }
             let (rec, end, ptr) = decode_record(p, off)?;
-            lay.has_pointer |= ptr;
+            lay.has_pointer |= ptr > 0;
+            lay.max_hops = lay.max_hops.max(ptr);
             if rec.rtype == T_OPT {
                 if s != SEC_AR {
                     return err("OPT outside the additional section");
